@@ -38,6 +38,9 @@ pub enum Env {
         /// 1 `-c oal.toml`, 2 `-c sub/../oal.toml`, 3 `-c <absolute>/oal.toml`, 4 `-c link/oal.toml` (link -> .)
         #[serde(default)]
         spelling: u8,
+        /// 0 default, 1..4 = -v … -vvvv, 5 = -q: logging must not influence the document
+        #[serde(default)]
+        verbosity: u8,
     },
 }
 
@@ -90,7 +93,7 @@ fn write_tree(dir: &str, files: &BTreeMap<String, String>) -> std::io::Result<()
     Ok(())
 }
 
-fn run_process(pc: &ProcCfg, files: &BTreeMap<String, String>, hash_seed: Option<u64>, fake_time: Option<i64>, aslr_off: bool, spelling: u8) -> Result<String, String> {
+fn run_process(pc: &ProcCfg, files: &BTreeMap<String, String>, hash_seed: Option<u64>, fake_time: Option<i64>, aslr_off: bool, spelling: u8, verbosity: u8) -> Result<String, String> {
     let dir = format!("{}/c06", pc.scratch);
     write_tree(&dir, files).map_err(|e| format!("harness: {e}"))?;
     // every spelling compiles with the same base description (tags, a security scheme, a
@@ -113,6 +116,14 @@ fn run_process(pc: &ProcCfg, files: &BTreeMap<String, String>, hash_seed: Option
         3 => cmd.args(["-c", &format!("{dir}/oal.toml")]),
         4 => cmd.args(["-c", "link/oal.toml"]),
         _ => cmd.args(["-m", "main.oal", "-t", "out.yaml", "-b", "base.yaml"]),
+    };
+    match verbosity {
+        1 => cmd.arg("-v"),
+        2 => cmd.arg("-vv"),
+        3 => cmd.arg("-vvv"),
+        4 => cmd.arg("-vvvv"),
+        5 => cmd.arg("-q"),
+        _ => &mut cmd,
     };
     cmd.current_dir(&dir);
     if hash_seed.is_some() || fake_time.is_some() {
@@ -199,8 +210,8 @@ pub fn execute(files: &BTreeMap<String, String>, env: &Env, pc: Option<&ProcCfg>
             });
             r.unwrap_or_else(|p| Err(format!("panic: {p}")))
         }
-        Env::Process { hash_seed, fake_time, aslr_off, spelling } => match pc {
-            Some(pc) => run_process(pc, files, hash_seed, fake_time, aslr_off, spelling),
+        Env::Process { hash_seed, fake_time, aslr_off, spelling, verbosity } => match pc {
+            Some(pc) => run_process(pc, files, hash_seed, fake_time, aslr_off, spelling, verbosity),
             None => Err("harness: real binaries not available".into()),
         },
     }
@@ -338,6 +349,7 @@ pub fn c06_cfg(rng: &mut Rng) -> GenCfg {
             shadow_bias: 3,
             res_range: (60, 110),
             odd_spellings: false,
+            clashing_imports: false,
         };
     }
     GenCfg {
@@ -349,6 +361,7 @@ pub fn c06_cfg(rng: &mut Rng) -> GenCfg {
         shadow_bias: 3,
         res_range: (1, 3),
         odd_spellings: rng.chance(1, 4),
+        clashing_imports: rng.chance(1, 2),
     }
 }
 
@@ -377,13 +390,13 @@ pub fn run(seed: u64, run: u64) -> Report {
         let h1 = er.next_u64();
         let h2 = er.next_u64();
         let sp = |er: &mut Rng| er.below(5) as u8;
-        envs.push(Env::Process { hash_seed: Some(h1), fake_time: Some(t0), aslr_off: true, spelling: 0 });
-        envs.push(Env::Process { hash_seed: Some(h2), fake_time: Some(t0), aslr_off: true, spelling: sp(&mut er) });
-        envs.push(Env::Process { hash_seed: Some(h2), fake_time: Some(t0 + day), aslr_off: true, spelling: sp(&mut er) });
-        envs.push(Env::Process { hash_seed: None, fake_time: None, aslr_off: false, spelling: sp(&mut er) });
+        envs.push(Env::Process { hash_seed: Some(h1), fake_time: Some(t0), aslr_off: true, spelling: 0, verbosity: 0 });
+        envs.push(Env::Process { hash_seed: Some(h2), fake_time: Some(t0), aslr_off: true, spelling: sp(&mut er), verbosity: er.below(6) as u8 });
+        envs.push(Env::Process { hash_seed: Some(h2), fake_time: Some(t0 + day), aslr_off: true, spelling: sp(&mut er), verbosity: er.below(6) as u8 });
+        envs.push(Env::Process { hash_seed: None, fake_time: None, aslr_off: false, spelling: sp(&mut er), verbosity: er.below(6) as u8 });
         if thorough {
-            envs.push(Env::Process { hash_seed: Some(er.next_u64()), fake_time: Some(t0 + 2 * day), aslr_off: true, spelling: sp(&mut er) });
-            envs.push(Env::Process { hash_seed: None, fake_time: None, aslr_off: false, spelling: sp(&mut er) });
+            envs.push(Env::Process { hash_seed: Some(er.next_u64()), fake_time: Some(t0 + 2 * day), aslr_off: true, spelling: sp(&mut er), verbosity: er.below(6) as u8 });
+            envs.push(Env::Process { hash_seed: None, fake_time: None, aslr_off: false, spelling: sp(&mut er), verbosity: er.below(6) as u8 });
         }
     }
     if files.len() == 1 {
@@ -398,7 +411,7 @@ pub fn run(seed: u64, run: u64) -> Report {
     if cfg.res_range.0 >= 60 {
         probes.push("large_module".into());
     }
-    for f in ["examples_multi", "multi_module", "reference", "ranges_multi", "scope_multi_param", "rec", "recursive_declaration", "tags_annotation"] {
+    for f in ["unqualified_imports_share_a_name", "qualifier_used_by_two_imports", "odd_import_spelling", "examples_multi", "multi_module", "reference", "ranges_multi", "scope_multi_param", "rec", "recursive_declaration", "tags_annotation"] {
         if ast.features.contains(f) {
             probes.push(match f {
                 "reference" => "refs_present".to_string(),
